@@ -221,3 +221,88 @@ void h_dh(void)
 	}
 	V_CANARY("flow dh");
 }
+
+/* ---- deterministic signing (bignSign2, bignIdSign2): nonce by algorithm 6.3.3.
+   theta = belt-hash(oid || d [|| t]) on a COPY of the hash state taken after oid; k = first admissible value of the chain
+   H -> belt-wbl(H, theta) -> belt-wbl(..) (at most three rounds in this model); then as in probabilistic signing. */
+static void check_sign2(err_t code, int operable, const word* q, const octet* oid, size_t oid_len, const octet* hash, const octet* privkey,
+	const octet* id_hash, const void* t, size_t t_len, const octet* sig, int zero_key_ok)
+{
+	word d[NW], H[NW], s0[NW], tt[2 * NW + 1], u[NW], k[NW]; int fav, range, i, e; size_t j; word cy;
+	STATE_RULES(code);
+	ld(d, privkey, NO); ld(H, hash, NO);
+	range = (zero_key_ok || !r_iszero(d, NW)) && r_cmp(d, q, NW) < 0;
+	fav = operable && E.noid == 1 && E.oid_ret != SIZE_MAX && E.created && E.start_ret == 1 && range && E.nmul == 1 && E.mul_ret;
+	V_ASSERT(code == ERR_OK ? fav : 1, "deterministic signing succeeds only with an admissible private key");
+	V_ASSERT(code != ERR_OK ? !fav : 1, "deterministic signing succeeds whenever its inputs are admissible");
+	V_ASSERT(E.nrand == 0, "no generator is used");
+	if (code != ERR_OK) return;
+	/* theta */
+	e = 0;
+	V_ASSERT(E.h_kind[0] == H_START && E.h_kind[1] == H_STEPH && E.h_ptr[1] == (const void*)oid && E.h_len[1] == oid_len && E.h_state[1] == E.h_state[0], "hash state: oid first");
+	V_ASSERT(E.h_kind[2] == H_STEPH && E.h_ptr[2] == (const void*)privkey && E.h_len[2] == NO && E.h_state[2] != E.h_state[0] && E.h_id[2] == E.h_id[0] && E.h_cnt[2] == 2,
+		"theta: the private key is hashed on a copy of the state taken after oid");
+	e = 3;
+	if (t != 0) { V_ASSERT(E.h_kind[3] == H_STEPH && E.h_ptr[3] == t && E.h_len[3] == t_len && E.h_state[3] == E.h_state[2] && E.h_cnt[3] == 3, "theta: t is hashed after the private key"); e = 4; }
+	V_ASSERT(E.h_kind[e] == H_G && E.h_state[e] == E.h_state[2] && E.h_cnt[e] == (word)e, "theta = hash of oid || d [|| t]");
+	V_ASSERT(E.wbl_len == 32, "belt-wbl keyed with theta");
+	/* the hash output of this G is overwritten later by G2: compare the key snapshot with what G wrote at that time is implicit
+	   (the key pointer is the G output buffer) */
+	V_ASSERT(E.wbl_key == E.h_ptr[e], "belt-wbl key is the hash output");
+	/* chain */
+	V_ASSERT(E.nwbl >= 1 && eqo(E.wbl_in[0], hash, NO), "the chain starts from H");
+	for (i = 1; i < 3; ++i) if (i < E.nwbl) V_ASSERT(eqo(E.wbl_in[i], E.wbl_out[i - 1], NO), "a rejected candidate is encrypted again unchanged");
+	for (i = 0; i < 3; ++i) if (i < E.nwbl)
+	{
+		ld(k, E.wbl_out[i], NO);
+		if (i + 1 < E.nwbl) V_ASSERT(r_iszero(k, NW) || r_cmp(k, q, NW) >= 0, "only inadmissible candidates are skipped");
+		else V_ASSERT(!r_iszero(k, NW) && r_cmp(k, q, NW) < 0 && eqw(E.mul_d, k, NW), "k is the first admissible candidate, 0 < k < q");
+	}
+	V_ASSERT(E.mul_ec == (const void*)E.ec && E.mul_a == E.base && eqw(E.mul_aval, E.base_val, 2 * NW) && E.mul_m == NW, "R = k G");
+	V_ASSERT(E.nto == 1 && eqw(E.to_in[0], E.mul_out, NW), "the x-coordinate of R is exported");
+	/* s0 */
+	++e;
+	V_ASSERT(E.h_kind[e] == H_STEPH && E.h_state[e] == E.h_state[0] && E.h_cnt[e] == 2 && E.h_len[e] == NO && eqo(E.h_val[e], E.to_val[0], NO), "s0: <R> hashed on the original state after oid");
+	++e;
+	if (id_hash) { V_ASSERT(E.h_kind[e] == H_STEPH && E.h_state[e] == E.h_state[0] && E.h_ptr[e] == (const void*)id_hash && E.h_len[e] == NO, "s0: identifier hash"); ++e; }
+	V_ASSERT(E.h_kind[e] == H_STEPH && E.h_state[e] == E.h_state[0] && E.h_ptr[e] == (const void*)hash && E.h_len[e] == NO, "s0: message hash");
+	++e;
+	V_ASSERT(E.h_kind[e] == H_G2 && E.h_state[e] == E.h_state[0] && E.h_ptr[e] == (const void*)sig && E.h_len[e] == NO / 2 && E.nh == e + 1, "s0 written to the signature");
+	/* s1 */
+	for (j = 0; j < NW; ++j) s0[j] = 0;
+	ld(s0, sig, NO / 2);
+	V_ASSERT(E.nzmul == 1 && E.zmul_n == NW / 2 && E.zmul_m == NW && eqw(E.zmul_a, s0, NW / 2) && eqw(E.zmul_b, d, NW), "s0 * d");
+	for (j = 0; j < 2 * NW + 1; ++j) tt[j] = j < NW + NW / 2 ? E.zmul_out[j] : 0;
+	cy = r_add(tt + NW / 2, tt + NW / 2, d, NW, 0); tt[NW + NW / 2] = cy;
+	V_ASSERT(E.nzmod == 1 && E.zmod_n == NW + NW / 2 + 1 && E.zmod_mod == E.order && eqw(E.zmod_a, tt, NW + NW / 2 + 1), "(s0 + 2^l) d reduced modulo q");
+	redq(H, q);
+	ld(u, sig + NO / 2, NO);
+	V_ASSERT(E.nam == 2 && E.am_kind[0] == -1 && E.am_kind[1] == -1 && E.amod_mod[0] == E.order && E.amod_mod[1] == E.order &&
+		eqw(E.amod_a[0], E.mul_d, NW) && eqw(E.amod_b[0], E.zmod_out, NW) &&
+		eqw(E.amod_a[1], E.amod_out[0], NW) && eqw(E.amod_b[1], H, NW) && eqw(u, E.amod_out[1], NW),
+		"s1 = zzSubMod(zzSubMod(k, (s0 + 2^l) d mod q, q), H mod q, q)");
+}
+
+void h_sign2(void)
+{
+	PROLOGUE;
+	V_IN_ARR(octet, privkey, NO); V_IN(int, have_t); V_IN_ARR(octet, tbuf, 8); V_IN(size_t, t_len);
+	V_BUF(octet, sig, NO + NO / 2);
+	err_t code; const void* t = have_t ? (const void*)&tbuf[0] : (const void*)0;
+	V_ASSUME(t_len <= 8);
+	code = bignSign2(sig, &params, oid, oid_len, hash, privkey, t, t_len);
+	check_sign2(code, operable, q, oid, oid_len, hash, privkey, 0, t, t_len, sig, 0);
+	V_CANARY("flow sign2");
+}
+
+void h_idsign2(void)
+{
+	PROLOGUE;
+	V_IN_ARR(octet, privkey, NO); V_IN_ARR(octet, id_hash, NO); V_IN(int, have_t); V_IN_ARR(octet, tbuf, 8); V_IN(size_t, t_len);
+	V_BUF(octet, sig, NO + NO / 2);
+	err_t code; const void* t = have_t ? (const void*)&tbuf[0] : (const void*)0;
+	V_ASSUME(t_len <= 8);
+	code = bignIdSign2(sig, &params, oid, oid_len, id_hash, hash, privkey, t, t_len);
+	check_sign2(code, operable, q, oid, oid_len, hash, privkey, id_hash, t, t_len, sig, 1);
+	V_CANARY("flow idsign2");
+}
